@@ -84,6 +84,10 @@ int main(int argc, char** argv) {
             A.definedAtStep = (int)rng.below(nsteps - 1);
             gen.curStep = A.definedAtStep;
             A.body = gen.actionBody(1 + (int)rng.below(3));
+            // WELPI inside an action scales the well's connection factors when the action runs (the simulator supplies the current
+            // productivity index); in the deck proper it only leaves a request.  So there is nothing to inline against, but the
+            // past must stay as it is: such bodies are checked for that only.
+            if (rng.chance(0.12) && !m.wells.empty()) { { const auto* pw = &m.wells[rng.below(m.wells.size())]; gdeck::BodyKw b; b.name = "WELPI"; b.records = {"'" + pw->name + "' " + gdeck::fmtd(5 + rng.below(40)) + " /"}; A.body.push_back(b); } }
             if (A.body.empty()) continue;
             m.steps[A.definedAtStep].kws.push_back({"ACTIONX", A.render()});
             m.actions.push_back(A);
@@ -157,7 +161,9 @@ int main(int argc, char** argv) {
                 std::vector<std::string> shuffled = ap.wells;
                 rng.shuffle(shuffled);
                 auto res = Action::Result{true}.wells(shuffled);
-                sched.applyAction(ap.step, action, res.matches(), std::unordered_map<std::string, double>{});
+                std::unordered_map<std::string, double> wellpi;
+                for (auto& wn : names) wellpi[wn] = 10.0;
+                sched.applyAction(ap.step, action, res.matches(), wellpi);
             } catch (const std::exception& e) {
                 Opm::Verif::scheduleKeywordHook() = nullptr;
                 rep.count("apply_refused"); rep.cover("apply_refused_why", errClass(e.what()));
@@ -177,6 +183,12 @@ int main(int argc, char** argv) {
         if (!pastViolation.empty()) rep.violation(pastViolation[0], pastViolation[1], base + "\n" + trace);
         if (sched.size() != nsteps + 1) { rep.violation("schedule-size-changed", "number of report steps changed by applyAction", base + "\n" + trace); return; }
 
+        for (auto& ap : apps) for (auto& bk : m.actions[ap.actionIdx].body) if (bk.name == "WELPI") {
+            for (auto& ap2 : apps) for (auto& b2 : m.actions[ap2.actionIdx].body) rep.cover("body_keyword", b2.name + (b2.perWell ? "(?)" : ""));
+            rep.count("applications_with_WELPI_checked_for_the_past_only"); rep.count("applications", (long)apps.size()); rep.count("hook_events", hookEvents);
+            rep.case_done(vh::fnv(base + trace), changedSomething);
+            return;
+        }
         // the inlined deck
         std::string inl = stat + "SCHEDULE\n";
         for (size_t s = 0; s < nsteps; ++s) {
